@@ -26,8 +26,15 @@
 (*   DirSyncOnCreate  fsync the directory after creating a .mem, .vlog or  *)
 (*                    flush-time .sst file (code: only compaction outputs, *)
 (*                    MANIFEST rewrite, Open and Close sync the directory) *)
-(*   DropTreeFirst    DropAll writes the MANIFEST deletions before it      *)
-(*                    removes the memtables (code: memtables first)        *)
+(*   DropFlushFirst   DropAll first flushes the active memtable into a     *)
+(*                    table, so that the single MANIFEST change set of     *)
+(*                    dropTree is the atomic point of the drop (code: the  *)
+(*                    memtable and its WAL are removed un-flushed before   *)
+(*                    the MANIFEST deletions are written).  Writing the    *)
+(*                    deletions first and removing the memtable afterwards *)
+(*                    is NOT enough: a GC write-back can leave an older    *)
+(*                    version of a key in the memtable than in the tables  *)
+(*                    (TLC counterexample with GC + DropAll).              *)
 (*   ZeroLenLogOK     Open treats a zero-length .mem/.vlog as empty (code: *)
 (*                    z.NewFile is returned as an error)                   *)
 (*   GCSafe           value-log GC does not run while a write request is     *)
@@ -52,7 +59,7 @@ CONSTANTS Groups,          \* the prefix groups DropPrefix may be called with
           VlogMaxEntries,  \* Options.ValueLogMaxEntries
           RewriteDel, RewriteRatio,   \* manifestFile.deletionsRewriteThreshold, manifestDeletionsRatio
           ContinueAfterCrash,
-          DirSyncOnCreate, DropTreeFirst, ZeroLenLogOK, GCSafe
+          DirSyncOnCreate, DropFlushFirst, ZeroLenLogOK, GCSafe
 
 VARIABLES fs, nobj,                                         \* file system (both layers)
           mt, imm, tabs, mman, vl, nextTs, nextMem, nextTbl, \* volatile state of the process
@@ -429,7 +436,8 @@ B_GUnlink ==
 \* ------------------------------------------------------------------ B: DropAll (db.go dropAll)
 \* prepareToDrop (block writes, finish pending writes, stop the flusher after it has
 \* drained), then  CODE: memtables removed -> new memtable -> MANIFEST deletes -> table files
-\* removed -> vlog files removed -> new vlog file;  INTENDED: the MANIFEST deletes first.
+\* removed -> vlog files removed -> new vlog file;  INTENDED: the active memtable is flushed
+\* to a table first (the B_PMt* steps DropPrefix already performs), then the same order.
 B_DStart(kind, g) ==
     /\ Up /\ pcB = "idle" /\ pcW = "idle" /\ ~blocked
     /\ \/ kind = "dropAll" /\ cnt.dropall < MaxDropAll /\ cnt' = [cnt EXCEPT !.dropall = @ + 1]
@@ -443,7 +451,7 @@ B_DStart(kind, g) ==
 B_DWaitFlush ==
     /\ Up /\ pcB = "dwaitflush" /\ imm = <<>> /\ pcF = "idle"
     /\ fstop' = TRUE
-    /\ pcB' = IF bg.kind = "dropPrefix" THEN "pmt" ELSE IF DropTreeFirst THEN "dman" ELSE "dmem"
+    /\ pcB' = IF bg.kind = "dropPrefix" \/ DropFlushFirst THEN "pmt" ELSE "dmem"
     /\ UNCHANGED <<fs, nobj, volatile, pcW, wreq, pcF, fl, bg, mw, blocked, ghost, cnt, status, rec>>
 \* db.mt.DecrRef(): the WAL of the active memtable is deleted
 B_DMem ==
@@ -456,14 +464,14 @@ B_DMemUnlink ==
     /\ fs' = MaybeDirSync(FsCreate(FsRemove(fs, MemName(mt.fid)), MemName(nextMem), nobj + 1, Cont("mem", <<>>)))
     /\ nobj' = nobj + 1
     /\ mt' = [fid |-> nextMem, ents |-> {}] /\ nextMem' = nextMem + 1
-    /\ pcB' = IF DropTreeFirst THEN "dvlog" ELSE "dman"
+    /\ pcB' = "dman"
     /\ UNCHANGED <<imm, tabs, mman, vl, nextTs, nextTbl, pcW, wreq, pcF, fl, bg, mw, blocked, fstop,
                    ghost, cnt, status, rec>>
 \* dropTree: one change set deleting every table (nothing is written when there is none)
 B_DMan ==
     /\ Up /\ pcB = "dman"
     /\ IF tabs = {}
-       THEN /\ pcB' = (IF DropTreeFirst THEN "dmem" ELSE "dvlog") /\ mw' = mw
+       THEN /\ pcB' = "dvlog" /\ mw' = mw
        ELSE /\ ManFree /\ ManStart("B", {[op |-> "delete", id |-> t.id, lvl |-> 0] : t \in tabs})
             /\ pcB' = "dmanwait"
     /\ UNCHANGED <<fs, nobj, volatile, pcW, wreq, pcF, fl, bg, blocked, fstop, ghost, cnt, status, rec>>
@@ -478,7 +486,7 @@ B_DTabRm ==
     /\ Up /\ pcB = "dtabrm"
     /\ LET left == {id \in bg.rm : Exists(fs, SstName(id))} IN
        IF left = {}
-       THEN /\ pcB' = (IF DropTreeFirst THEN "dmem" ELSE "dvlog") /\ fs' = fs
+       THEN /\ pcB' = "dvlog" /\ fs' = fs
        ELSE /\ \E id \in left : fs' = FsRemove(fs, SstName(id))
             /\ pcB' = "dtabrm"
     /\ UNCHANGED <<nobj, volatile, pcW, wreq, pcF, fl, bg, mw, blocked, fstop, ghost, cnt, status, rec>>
@@ -546,7 +554,7 @@ B_PMtUnlink ==
     /\ fs' = MaybeDirSync(FsCreate(FsRemove(fs, MemName(mt.fid)), MemName(nextMem), nobj + 1, Cont("mem", <<>>)))
     /\ nobj' = nobj + 1
     /\ mt' = [fid |-> nextMem, ents |-> {}] /\ nextMem' = nextMem + 1
-    /\ pcB' = "pl1"
+    /\ pcB' = IF bg.kind = "dropPrefix" THEN "pl1" ELSE "dman"
     /\ UNCHANGED <<imm, tabs, mman, vl, nextTs, nextTbl, pcW, wreq, pcF, fl, bg, mw, blocked, fstop,
                    ghost, cnt, status, rec>>
 B_PL1 ==
